@@ -46,6 +46,7 @@ type Reconnector struct {
 	states map[string]*reconnectState
 	closed bool
 	paused bool
+	arms   uint64 // number of timers armed so far; the source of reconnectState.gen
 }
 
 // NewReconnector creates a new reconnector.
@@ -101,7 +102,10 @@ func (r *Reconnector) Schedule(addr string) {
 
 // armLocked starts the one timer of an address. Must be called with r.mu held.
 func (r *Reconnector) armLocked(addr string, state *reconnectState, delay time.Duration) {
-	state.gen++
+	// Numbered across all states: a timer that fired just before its state was
+	// cancelled must not match a state created for the same address afterwards.
+	r.arms++
+	state.gen = r.arms
 	gen := state.gen
 	state.timer = time.AfterFunc(delay, func() {
 		r.attemptReconnect(addr, gen)
